@@ -90,7 +90,7 @@ class NexusMachine(Machine):
         n_init = sw.randint(3, 8 if tier == "quick" else 12)
         n_ops = sw.randint(4, 30 if tier == "quick" else 45)
         kinds = ["set", "read", "freeze", "unfreeze", "replace", "replace_child", "set_func", "setitem", "add_dep",
-                 "new_func", "new_param", "new_alias", "new_seq", "new_fallback", "new_binop", "value_dict", "drop", "arm", "cycle", "freeze_raw"]
+                 "new_func", "new_param", "new_alias", "new_seq", "new_fallback", "new_binop", "value_dict", "drop", "arm", "cycle", "freeze_raw", "nx_replace", "nx_named"]
         weights = {}
         for k in kinds:
             weights[k] = sw.choice([0, 0, 1, 2, 4]) if k not in ("set", "read") else sw.choice([3, 6, 10])
@@ -101,6 +101,8 @@ class NexusMachine(Machine):
             weights["arm"] = 0
         if mode == "free":
             weights["value_dict"] = 0
+            weights["nx_replace"] = 0
+            weights["nx_named"] = 0
         knobs = {
             "mode": mode,
             "order": sw.choice(["shuffle", "shuffle", "insertion", "reverse"]),
@@ -185,6 +187,7 @@ class GenState(object):
         self.registered = {}  # nexus mode: name -> node id
         self.cycle_done = False
         self.opaque = set()  # nodes frozen without a preceding read (value unknown to the reference)
+        self.alias_name = {}  # node id -> registry name taken over from a replaced node
 
     def depends_on_opaque(self, nid):
         return any(self.g.reaches(nid, o) for o in self.opaque if self.g.has(o))
@@ -200,6 +203,8 @@ class GenState(object):
         return self.ids(lambda n: n.typ == "q")
 
     def name_of(self, nid):
+        if nid in self.alias_name:
+            return self.alias_name[nid]
         n = self.g.nodes[nid]
         return {"P": "p", "F": "f", "A": "a", "T": "t", "R": "r", "B": "b"}[n.kind] + str(nid)
 
@@ -325,6 +330,25 @@ class GenState(object):
             return None
         if k == "value_dict":
             return ["value_dict", rng.choice(["fail", "none", "ignore", "list", "exception_as_value"])]
+        if k == "nx_replace":
+            # Nexus.add(<new node with the name of an existing one>, existing_behavior='replace' | 'replace_if_alias')
+            cand = [i for i in self.ids() if self.name_of(i) in self.registered and self.registered[self.name_of(i)] == i]
+            if not cand:
+                return None
+            old = rng.choice(cand)
+            if g.nodes[old].typ != "s":
+                return None
+            if rng.random() < 0.5 or not sc:
+                return ["nx_replace", old, nid, ["param", _val(rng)], "replace"]
+            return ["nx_replace", old, nid, ["func", rng.choice(["neg", "inc", "absf"]), rng.choice(sc)], rng.choice(["replace", "replace", "replace_if_alias"])]
+        if k == "nx_named":
+            # Nexus.add_function(func, func_name, par_names=[...]) / Nexus.add_alias(name, alias_for=...)
+            if not sc:
+                return None
+            if rng.random() < 0.5:
+                key = rng.choice(["add", "mul", "neg", "sum3"])
+                return ["nx_named", nid, "func", key, [rng.choice(sc) for _ in LIB[key][0]]]
+            return ["nx_named", nid, "alias", rng.choice(sc + sq)]
         if k == "drop":
             cand = self.ids(lambda n: not g.parents(n.id) and n.kind != "P")
             return ["drop", rng.choice(cand)] if cand else None
@@ -477,6 +501,11 @@ class GenState(object):
                 g.nodes[bid] = lit
                 g.nodes[t].params[i] = bid
             return True
+        if k in ("add_dep", "cycle") and self.knobs["mode"] == "nexus":
+            # Nexus.add_dependency addresses nodes by NAME: a node whose name was taken over by a replacement is not addressable
+            for x in (op[1], op[2]):
+                if g.has(x) and x >= 0 and self.registered.get(self.name_of(x)) != x:
+                    return False
         if k == "add_dep":
             a, b = op[1], op[2]
             if not (g.has(a) and g.has(b)) or g.nodes[a].kind not in ("F", "A"):
@@ -495,6 +524,63 @@ class GenState(object):
             return True
         if k == "value_dict":
             return self.knobs["mode"] == "nexus"
+        if k == "nx_replace":
+            old, nid, spec, beh = op[1], op[2], op[3], op[4]
+            if self.knobs["mode"] != "nexus" or not g.has(old) or nid in g.nodes or old < 0:
+                return False
+            nm = self.name_of(old)
+            if self.registered.get(nm) != old or g.nodes[old].typ != "s":
+                return False
+            if beh == "replace_if_alias" and g.nodes[old].kind != "A":
+                return False  # would be rejected: that is C19's subject
+            if spec[0] == "param":
+                n = RNode(nid, "P")
+                n.value = float(spec[1])
+            else:
+                src = spec[2]
+                if not g.has(src) or g.nodes[src].typ != "s" or LIB[spec[1]][0] != "s":
+                    return False
+                # the new node must not depend on a parent of the node it replaces (no cycle)
+                if src == old or g.reaches(src, old) or any(g.reaches(src, par) for par in g.parents(old)):
+                    return False
+                n = RNode(nid, "F")
+                n.fkey = ("lib", spec[1])
+                n.params = [src]
+                n.countable = True
+            g.nodes[nid] = n
+            for par in g.parents(old):
+                if par == nid:
+                    continue
+                m = g.nodes[par]
+                m.params = [nid if c == old else c for c in m.params]
+                m.deps = [nid if c == old else c for c in m.deps]
+            self.next_id = max(self.next_id, nid + 1)
+            self.registered[nm] = nid
+            self.alias_name[nid] = nm
+            return True
+        if k == "nx_named":
+            nid = op[1]
+            if self.knobs["mode"] != "nexus" or nid in g.nodes:
+                return False
+            if op[2] == "func":
+                key, args = op[3], op[4]
+                if len(args) != len(LIB[key][0]) or not all(g.has(a) and g.nodes[a].typ == "s" and self.registered.get(self.name_of(a)) == a for a in args):
+                    return False
+                n = RNode(nid, "F")
+                n.fkey = ("lib", key)
+                n.params = list(args)
+                n.countable = True
+            else:
+                t = op[3]
+                if not g.has(t) or self.registered.get(self.name_of(t)) != t:
+                    return False
+                n = RNode(nid, "A")
+                n.params = [t]
+                n.typ = g.nodes[t].typ
+            g.nodes[nid] = n
+            self.next_id = max(self.next_id, nid + 1)
+            self.registered[self.name_of(nid)] = nid
+            return True
         if k == "drop":
             if not g.has(op[1]) or g.parents(op[1]) or g.nodes[op[1]].kind == "P":
                 return False
@@ -585,6 +671,8 @@ class Exec(object):
             self.log.add([what, nid], "fault", None)
             return None
         if opaque:
+            if any(g.nodes[x].kind == "B" for x in g.nodes if g.nodes[x].alive and (x == nid or g.reaches(nid, x))):
+                g.events.add("fallback_after_failed_alternative")  # a fallback may have skipped an alternative during this unjudged read
             self.res.bump("read_not_compared_opaque_frozen_input")
             self.log.add([what, nid], "opaque")
             return None  # (call-count oracles above were still applied; they do not depend on values)
@@ -729,6 +817,27 @@ class Exec(object):
         elif k == "value_dict":
             mut = False
             self.value_dict(step, op[1])
+        elif k == "nx_replace":
+            old, nid, spec, beh = op[1], op[2], op[3], op[4]
+            nm = gs.name_of(nid)
+            if spec[0] == "param":
+                node = nx.Parameter(float(spec[1]), name=nm)
+            else:
+                f = self.make_counted(spec[1], nid)
+                node = nx.Function(f, name=nm, parameters=[R[spec[2]]])
+            self.nexus.add(node, existing_behavior=beh)
+            R[nid] = node
+            self.dirty[nid] = True
+            self.mark_dirty(nid)
+        elif k == "nx_named":
+            nid = op[1]
+            if op[2] == "func":
+                f = self.make_counted(op[3], nid)
+                node = self.nexus.add_function(f, func_name=gs.name_of(nid), par_names=[gs.name_of(a) for a in op[4]])
+            else:
+                node = self.nexus.add_alias(gs.name_of(nid), alias_for=gs.name_of(op[3]))
+            R[nid] = node
+            self.dirty[nid] = True
         elif k == "drop":
             node = R.pop(op[1])
             self.cnt.pop(op[1], None)
